@@ -1,0 +1,10 @@
+//go:build !verif
+
+// Package verifhook provides yield points for the external verification
+// harness. Without the "verif" build tag every call is an empty, inlinable
+// function.
+package verifhook
+
+// Point marks a place where the verification harness may observe or pause the
+// calling goroutine. It does nothing in normal builds.
+func Point(name string, arg any) {}
